@@ -570,13 +570,24 @@ class ClientGenerator:
         import difflib
 
         has_diff = False
-        for new_file in Path(new_dir).rglob("*.py"):
+        for new_file in sorted(Path(new_dir).rglob("*")):
+            # hidden bookkeeping files (e.g. the shared-core exception registry) and caches are not generated output
+            if not new_file.is_file() or new_file.name.startswith(".") or "__pycache__" in new_file.parts:
+                continue
             old_file = Path(old_dir) / new_file.relative_to(new_dir)
-            if old_file.exists():
-                old_lines = old_file.read_text().splitlines()
-                new_lines = new_file.read_text().splitlines()
-                diff = list(difflib.unified_diff(old_lines, new_lines, fromfile=str(old_file), tofile=str(new_file)))
-                if diff:
+            if not old_file.exists():
+                has_diff = True
+                print(f"Missing in existing output: {old_file}")
+                continue
+            if new_file.suffix != ".py":
+                if old_file.read_bytes() != new_file.read_bytes():
                     has_diff = True
-                    print("\n".join(diff))
+                    print(f"Files differ: {old_file}")
+                continue
+            old_lines = old_file.read_text().splitlines()
+            new_lines = new_file.read_text().splitlines()
+            diff = list(difflib.unified_diff(old_lines, new_lines, fromfile=str(old_file), tofile=str(new_file)))
+            if diff:
+                has_diff = True
+                print("\n".join(diff))
         return has_diff
